@@ -369,6 +369,12 @@ func Depth1() []*Spec {
 		{Name: "on", Type: &Spec{Kind: KString}},
 		{Name: "off", Type: &Spec{Kind: KInt}, Disabled: true, DisabledLate: true},
 	}})
+	// any-typed properties whose defaults are collections (the decoded default is cached in the schema)
+	out = append(out, &Spec{Kind: KObject, ID: "AnyDef", Props: []Prop{
+		{Name: "l", Type: &Spec{Kind: KAny}, Default: Str("[1, 2]")},
+		{Name: "m", Type: &Spec{Kind: KAny}, Default: Str("{\"k\": [\"x\"], \"n\": {\"d\": 1}}")},
+		{Name: "s", Type: &Spec{Kind: KString}},
+	}})
 	out = append(out, &Spec{Kind: KObject, ID: "Empty"})
 	out = append(out, &Spec{Kind: KObject, ID: "Enums", Props: []Prop{
 		{Name: "ei", Type: &Spec{Kind: KIntEnum, EnumI: []int64{1, 2}}, Required: true},
